@@ -45,7 +45,9 @@ func checkC26(r *Run) {
 	if fn := r.fn("C26-R1", "daemon/pex.Pex.AddPeers"); fn != nil {
 		for _, cs := range r.CallSites(fn, "daemon/pex.peerlist.addPeers") {
 			t := r.argTerm(cs, 1)
-			ok := t == F || glob("φ("+F+"|fold[acc=nil; append(acc, [daemon/pex.validateAddress(*[i], $0.Config.AllowLocalhost)#0])][:*])", t)
+			// the accumulator may start nil or as an empty pre-sized slice
+			tn := strings.ReplaceAll(t, "acc=make([]string, 0)", "acc=nil")
+			ok := tn == F || glob("φ("+F+"|fold[acc=nil; append(acc, [daemon/pex.validateAddress(*[i], $0.Config.AllowLocalhost)#0])][:*])", tn)
 			r.Check("C26-R1", "AddPeers stores only the sanitised results of validateAddress (possibly capped)", r.P.Pos(cs.Pos()), ok, trunc(t, 300))
 		}
 	}
